@@ -11,6 +11,7 @@ from __future__ import annotations
 import concurrent.futures
 import os
 import re
+import sys
 import warnings
 from fractions import Fraction
 
@@ -39,6 +40,18 @@ QUANT = 1.0 / 16    # data are multiples of 1/16: ties are exact, non-zero gaps 
 # data
 # ------------------------------------------------------------------------------------------------------------
 def gen_data(rng, shape, kind):
+    if kind.startswith("constlane/"):
+        # "constlane/<axis>/<first|middle|last>/<kind of the other lanes>": one lane along <axis> is constant, the others are not
+        _, ax, where, other = kind.split("/")
+        x = gen_data(rng, shape, other)
+        nl = shape[1 - int(ax)]
+        j = {"first": 0, "middle": nl // 2, "last": nl - 1}[where]
+        c = round(rng.uniform(-40.0, 40.0) / QUANT) * QUANT
+        if int(ax) == 0:
+            x[:, j] = c
+        else:
+            x[j, :] = c
+        return x
     n = int(np.prod(shape))
     nrng = np.random.default_rng(rng.randrange(2 ** 32))
     if kind == "normal":
@@ -120,6 +133,13 @@ def oracle(R, stats):
         for kind in kinds:
             for _ in range(reps):
                 plan.append((sh, kind))
+    # one constant lane (first / middle / last) among non-constant ones, along either axis of every 2-D shape: a lane-wise result must not
+    # depend on the other lanes (np.apply_along_axis, for one, takes the dtype of its output buffer from the first lane)
+    others = ["normal", "skewed", "outliers", "ties"]
+    for i, (ax, where) in enumerate([(ax, w) for ax in (0, 1) for w in ("first", "middle", "last")]):
+        for k, sh in enumerate([shapes2[i % len(shapes2)]] if quick else shapes2):
+            for r in range(1 if quick else 2):
+                plan.append((sh, f"constlane/{ax}/{where}/{others[(i + k + r) % len(others)]}"))
     rng.shuffle(plan)
     amaps = []
 
@@ -232,8 +252,20 @@ def oracle(R, stats):
                         fail(f"finite-zscore-{m}", "Z-scores of finite data are not finite (or have the wrong shape)",
                              dict(zbase, z=tolist(dzx)[:40]))
                         continue
+                    # a zero scale estimate falls back to unit scale: on a lane whose 1-D estimate is exactly zero (a constant lane; IQR / Qn / Sn
+                    # of heavily tied data) the Z-scores are the deviations themselves.  x is exact in float32, loc is rounded to it
+                    for (pos, l), le in zip(lanes, lane_est):
+                        if not bool(np.all(np.asarray(le) == 0.0)):
+                            continue
+                        loc_l = 0.0 if lm == "norm" else float(np.median(l) if lm == "median" else np.mean(l))
+                        sel, want = put_lane(shape, axis, pos, l - loc_l)
+                        R.hist["zero-scale-lanes-checked"] = R.hist.get("zero-scale-lanes-checked", 0) + 1
+                        if not bool(np.all(np.abs(dzx[sel] - want) <= 4 * float(np.finfo(np.float32).eps) * (1.0 + float(np.max(np.abs(l)))))):
+                            fail(KEY_SN if (m == "sn" and lanes_bad) else f"zero-scale-zscore-{m}",
+                                 "the scale estimate of a lane is zero but its Z-scores are not (x - loc) / 1 (unit-scale fallback)",
+                                 dict(zbase, lane=list(pos), z=tolist(dzx[sel])[:20], expected=tolist(want)[:20]))
                     if lm == "norm":
-                        continue       # no location: only finiteness and shape are demanded
+                        continue       # no location: finiteness, shape and the zero-scale fallback are all that is demanded
                     # per-axis == per-lane
                     full = np.empty(shape)
                     lane_ok = True
@@ -495,10 +527,12 @@ def prove(R):
 
 def run(R: vlib.Run):
     warnings.filterwarnings("ignore")
-    os.environ.setdefault("NUMBA_NUM_THREADS", "4")
+    if "numba" not in sys.modules:     # once numba has launched its threads (check.py: set_num_threads) a changed value makes every compilation raise
+        os.environ.setdefault("NUMBA_NUM_THREADS", "4")
     from sigpyproc.core import stats
     R.rule = ("shapes 1-D (8..64) and 2-D (8x8..16x9, plus 1xN / Nx1 with the reduced axis >= 8) x data kinds {normal, ties, >50% ties, "
-              "constant, heavy outliers, skewed}, multiples of 1/16 x one affine map per array with 1e-2 <= |a| <= 1e2 (30% exact powers of two, "
+              "constant, heavy outliers, skewed; 2-D: one constant lane (first / middle / last, along either axis) among non-constant ones}, "
+              "multiples of 1/16 x one affine map per array with 1e-2 <= |a| <= 1e2 (30% exact powers of two, "
               "both signs, offsets up to ~10 |a| sigma) x 9 scale methods x axis in {None, 0, 1} x {median, mean, norm}.  A case = (array, "
               "method, axis); non-trivial unless the data are constant; distinct by (array index, method, axis)")
     R.trusted += [
@@ -522,3 +556,433 @@ def run(R: vlib.Run):
     oracle(R, stats)
     callers(R, stats)
     return R
+
+
+# ------------------------------------------------------------------------------------------------------------
+# at-scale search (check.py calls scale(R) when something no longer checks and no small failing input was found, and always in
+# the thorough tier / with VERIF_SCALE=1).  Everything here is stateless array code, so "scale" means: element counts around
+# 2**16 .. 2**24 in one lane, pair counts n(n-1)/2 and table sizes n*n around 2**16 .. 2**24 for the O(n^2) estimators (qn, sn),
+# lane counts around 2**16 / 2**20 (the lane iteration of apply_along_axes), lanes longer than 65536 samples, blocks of more than
+# 2**24 elements with more than 16384 samples per channel, float32 / float64 / uint8 inputs, values whose squares overflow float32.
+# The reference is written lane-wise in float64 from the definitions (never by calling sigpyproc).
+# ------------------------------------------------------------------------------------------------------------
+SCALE_KINDS = ["normal", "heavyties", "outliers", "ties", "skewed", "u8sat", "big"]
+S_FAST = ["std", "iqr", "mad", "doublemad", "diffcov", "biweight", "gapper"]      # O(n) / O(n log n) in the lane length
+S_PAIR = ["qn", "sn"]                                                              # O(n^2) tables
+S_VEC = ["std", "iqr", "mad", "doublemad", "biweight"]                             # no Python-level lane loop
+S_RT = 1e-9         # float64 arithmetic on the same numbers, different summation order / selection algorithm
+
+
+def scale_data(seed, shape, kind, dtype="float32", const_lanes=()):
+    """Generator of every at-scale input: an (L, n) array whose L lanes run along axis 1 (the cases say how it is handed to the
+    implementation).  Replay: scale_data(case["seed"], case["lanes_x_length"], case["kind"], case["dtype"], case["const_lanes"]).
+    All kinds but "big" are multiples of 1/1024 below 2**12 in magnitude (heavyties, ties, u8sat: of 1/16 or 1): exact in float32, also after
+    the affine maps used; ties and pair differences are exact.  The fine grid keeps the order statistics sensitive to a few dropped samples."""
+    L, n = int(shape[0]), int(shape[1])
+    g = np.random.default_rng([int(seed), SCALE_KINDS.index(kind), L, n])
+    z = g.standard_normal(L * n, dtype=np.float32)
+    if kind == "normal":
+        x = np.round((z * 5 + 3) * 1024) / 1024
+    elif kind == "heavyties":
+        x = np.round(z * 5 * 16) / 16
+        x[g.random(L * n, dtype=np.float32) < 0.7] = 2.0
+    elif kind == "outliers":
+        x = np.round(z * 1024) / 1024
+        idx = g.choice(L * n, max(1, (L * n) // 10), replace=False)
+        x[idx] += (g.choice(np.array([-1.0, 1.0], dtype=np.float32), idx.size) * g.integers(100, 2000, idx.size)).astype(np.float32)
+    elif kind == "ties":
+        x = g.integers(0, 4, L * n).astype(np.float32)
+    elif kind == "skewed":
+        x = np.round(g.standard_exponential(L * n, dtype=np.float32) * 4 * 1024) / 1024
+    elif kind == "u8sat":          # 8-bit data saturating at both ends of the range
+        x = np.clip(np.round(z * 80 + 128), 0, 255)
+    elif kind == "big":            # squares overflow float32, not float64
+        x = z * np.float32(1e30)
+    else:
+        raise ValueError(kind)
+    del z
+    x = x.astype(np.float32).reshape(L, n)
+    for i in const_lanes:
+        x[i, :] = x[i, 0]
+    return x.astype(dtype)
+
+
+def _r_median(X):
+    n = X.shape[1]
+    P = np.partition(X, sorted({(n - 1) // 2, n // 2}), axis=1)
+    return 0.5 * (P[:, (n - 1) // 2].astype(np.float64) + P[:, n // 2].astype(np.float64))
+
+
+def _r_loc(X, lm):
+    return _r_median(X) if lm == "median" else (np.zeros(X.shape[0]) if lm == "norm" else X.sum(axis=1, dtype=np.float64) / X.shape[1])
+
+
+def _r_pct(X, p):
+    n = X.shape[1]
+    pos = (n - 1) * p
+    lo = int(np.floor(pos))
+    hi = min(lo + 1, n - 1)
+    P = np.partition(X, sorted({lo, hi}), axis=1)
+    return P[:, lo] + (P[:, hi] - P[:, lo]) * (pos - lo)
+
+
+def _r_side(A, sel):
+    """median and mean of A over the samples of each lane selected by sel (never empty: the median sample is on both sides)"""
+    c = sel.sum(axis=1)
+    S = np.sort(np.where(sel, A, np.inf), axis=1)
+    med = 0.5 * (np.take_along_axis(S, ((c - 1) // 2)[:, None], 1)[:, 0] + np.take_along_axis(S, (c // 2)[:, None], 1)[:, 0])
+    del S
+    return med, np.where(sel, A, 0.0).sum(axis=1) / c
+
+
+def _r_qn_lane(x):
+    """k-th smallest |x_i - x_j| (i < j), k = h(h-1)/2, h = n//2 + 1, by bisection on the count of pairs within t (t in units of 1/4096:
+    the data and their images under the affine maps used are multiples of it)"""
+    n = x.size
+    h = n // 2 + 1
+    k = h * (h - 1) // 2
+    xs = np.sort(x)
+    i = np.arange(n)
+
+    def count(m):
+        return int((np.searchsorted(xs, xs + m / 4096.0, side="right") - i - 1).sum())
+    lo, hi = 0, int(round((xs[-1] - xs[0]) * 4096))
+    while lo < hi:
+        mid = (lo + hi) // 2
+        if count(mid) >= k:
+            hi = mid
+        else:
+            lo = mid + 1
+    return lo / 4096.0 / 0.4506241100243562
+
+
+def _r_sn_lane(x):
+    inner = np.empty(x.size)
+    step = max(1, (1 << 21) // x.size)
+    for s in range(0, x.size, step):
+        inner[s:s + step] = _r_median(np.abs(x[s:s + step, None] - x[None, :]))
+    return 1.1926 * float(_r_median(inner[None, :])[0])
+
+
+def _r_scale(X, m):
+    """lane-wise reference of estimate_scale in float64: X is (L, n) float64; (L,) result, (L, n) for doublemad"""
+    L, n = X.shape
+    norm, norm_aad = 0.6744897501960817, np.sqrt(2 / np.pi)
+    if m == "std":
+        D = X - (X.sum(axis=1) / n)[:, None]
+        return np.sqrt(np.square(D, out=D).sum(axis=1) / n)
+    if m == "iqr":
+        return (_r_pct(X, 0.75) - _r_pct(X, 0.25)) / 1.3489795003921634
+    if m == "mad":
+        A = np.abs(X - _r_median(X)[:, None])
+        mad = _r_median(A) / norm
+        zero = np.abs(mad) <= 1e-8
+        if zero.any():
+            mad[zero] = A[zero].sum(axis=1) / n / norm_aad
+        return mad
+    if m == "doublemad":
+        med = _r_median(X)[:, None]
+        A = np.abs(X - med)
+        out = []
+        for sel in (X <= med, X >= med):
+            md, mean = _r_side(A, sel)
+            md = md / norm
+            out.append(np.where(np.abs(md) <= 1e-8, mean / norm_aad, md)[:, None])
+        return np.where(X < med, out[0], np.where(X > med, out[1], 0.5 * (out[0] + out[1])))
+    if m == "diffcov":
+        d = np.diff(X, axis=1)
+        p, q = d[:, :-1], d[:, 1:]
+        p = p - (p.sum(axis=1) / p.shape[1])[:, None]
+        q = q - (q.sum(axis=1) / q.shape[1])[:, None]
+        return np.sqrt(np.abs((p * q).sum(axis=1) / (p.shape[1] - 1)))
+    if m == "biweight":
+        D = X - _r_median(X)[:, None]
+        mad = _r_median(np.abs(D))
+        with np.errstate(all="ignore"):
+            u = np.square(D / (9.0 * mad[:, None]))
+            inside = u < 1
+            f1 = np.where(inside, D * D * (1 - u) ** 4, 0.0).sum(axis=1)
+            f2 = np.where(inside, (1 - u) * (1 - 5 * u), 0.0).sum(axis=1)
+            return np.where(mad == 0, 0.0, np.sqrt(n * f1) / np.abs(f2))
+    if m == "gapper":
+        g = np.diff(np.sort(X, axis=1), axis=1)
+        i = np.arange(1, n, dtype=np.float64)
+        return (g @ (i * (n - i))) * np.sqrt(np.pi) / (float(n) * (n - 1))
+    if m == "qn":
+        if n <= 64:
+            h = n // 2 + 1
+            k = h * (h - 1) // 2
+            i, j = np.triu_indices(n, 1)
+            return np.sort(np.abs(X[:, i] - X[:, j]), axis=1)[:, k - 1] / 0.4506241100243562
+        return np.array([_r_qn_lane(X[r]) for r in range(L)])
+    if m == "sn":
+        if n <= 64:
+            T = np.abs(X[:, :, None] - X[:, None, :]).reshape(L * n, n)
+            return 1.1926 * _r_median(_r_median(T).reshape(L, n))
+        return np.array([_r_sn_lane(X[r]) for r in range(L)])
+    raise ValueError(m)
+
+
+def _s_rss_mb():
+    import resource
+    return resource.getrusage(resource.RUSAGE_SELF).ru_maxrss / 1024.0
+
+
+def _s_one(R, stats, seed, L, n, kind, mode, methods, locs=("mean", "median"), dtype="float32", const_lanes=(), affine=None,
+           both=True, shape2d=None, direct=True):
+    """One generated (L, n) array against every method.  mode: "flat" (L = 1: the lane as a 1-D array, axis None and 0),
+    "axis1" (the array, axis=1), "axis0" (its transpose, made contiguous, axis=0), "none2d" (L = 1: the lane reshaped to
+    shape2d, axis=None).  both: also the keepdims=True call.  direct=False: no direct estimate_scale call (the scale is then
+    checked through ZScoreResult.scale and the Z-scores); locs=(): no Z-scores and no locations.  affine = (a, b): additionally y = a x + b (exact in float32)."""
+    X = scale_data(seed, (L, n), kind, dtype, const_lanes)
+
+    def inp_of(A):
+        if mode == "flat":
+            return A[0]
+        if mode == "none2d":
+            return A[0].reshape(shape2d)
+        return A if mode == "axis1" else np.ascontiguousarray(A.T)
+
+    def lay(v):            # per-lane (L,) or per-sample (L, n) values in the layout of the input (broadcastable against it)
+        v = np.asarray(v)
+        if v.ndim == 2:
+            return inp_of(v)
+        return v.reshape(1) if mode == "flat" else (v.reshape(1, 1) if mode == "none2d" else (v[:, None] if mode == "axis1" else v[None, :]))
+    axes = [None, 0] if mode == "flat" else [None if mode == "none2d" else int(mode[-1])]
+    zaxis = axes[-1]
+    base = {"seed": int(seed), "lanes_x_length": [L, n], "kind": kind, "dtype": dtype, "const_lanes": list(const_lanes), "mode": mode,
+            "shape2d": list(shape2d) if shape2d else None, "data": "props/c15.py scale_data(seed, lanes_x_length, kind, dtype, const_lanes); see _s_one for mode"}
+    variants = [("x", X, 1.0)]
+    if affine:
+        a, b = affine
+        variants.append(("a*x+b", (np.float32(a) * X.astype(np.float32) + np.float32(b)).astype(dtype), abs(a)))
+    X64 = X.astype(np.float64)
+    spread_l = np.max(np.abs(X64 - _r_median(X64)[:, None]), axis=1)
+    amax = float(np.max(np.abs(X64)))
+    for m in methods:
+        got_x = None
+        for vname, V, fac in variants:
+            case = dict(base, method=m, input=vname, affine=list(affine) if affine else None)
+            R.case(("scale", mode, L, n, kind, dtype, m, vname), regime="scale")
+            inp = inp_of(V)
+            V64 = X64 if vname == "x" else V.astype(np.float64)
+            ref = _r_scale(V64, m)
+            atol = 1e-12 * (1.0 + amax * fac) + (1e-6 * fac * lay(spread_l) if m == "diffcov" else 0.0)
+            exp = lay(ref)
+            exp_shape = inp.shape if m == "doublemad" else (() if L == 1 else (L,))
+            # ---- estimate_scale -----------------------------------------------------------------------------------------
+            res = None
+            for axis in (axes if direct else []):
+                for kd in ((False, True) if both else (False,)):
+                    c = dict(case, axis=axis, keepdims=kd)
+                    R.tick(c)
+                    try:
+                        r = stats.estimate_scale(inp, m, axis, keepdims=kd)
+                    except Exception as e:  # noqa: BLE001
+                        R.fail(f"scale-exception-{m}", f"estimate_scale raised at scale: {type(e).__name__}: {str(e)[:120]}", c)
+                        continue
+                    R.evals += 1
+                    r = np.asarray(r, dtype=np.float64)
+                    shape_ok = (r.shape == exp.shape if (kd and m != "doublemad") else (r.shape == tuple(exp_shape) or (L == 1 and r.size == 1 and m != "doublemad")))
+                    if not shape_ok:
+                        R.fail(f"scale-shape-{m}", "estimate_scale at scale: result shape is not the per-lane shape / does not broadcast against the input",
+                               dict(c, got_shape=list(r.shape), input_shape=list(inp.shape)))
+                        continue
+                    rr = r if (kd or m == "doublemad") else lay(r.reshape(-1))
+                    bad = ~(np.abs(rr - exp) <= atol + S_RT * np.abs(exp))
+                    if bad.any():
+                        w = np.argwhere(np.broadcast_to(bad, np.broadcast_shapes(bad.shape, exp.shape)))[0]
+                        R.fail(f"scale-lanes-{m}", "estimate_scale at scale differs from the 1-D definition applied to each lane (float64 reference)",
+                               dict(c, n_bad=int(bad.sum()), first_bad=[int(v) for v in w], got=float(np.broadcast_to(rr, bad.shape)[tuple(w)]),
+                                    expected=float(np.broadcast_to(exp, bad.shape)[tuple(w)])))
+                    if res is None:
+                        res = np.broadcast_to(rr, exp.shape).copy()
+            # ---- scale(a x + b) = |a| scale(x) ---------------------------------------------------------------------------
+            if vname == "x":
+                got_x = res
+            elif res is not None and got_x is not None:
+                tol = (1e-6 if m == "diffcov" else 1e-11) * fac * (lay(spread_l) + amax) + RT_SCALE * fac * np.abs(got_x)
+                if not bool(np.all(np.abs(res - fac * got_x) <= tol)):
+                    R.fail(f"scale-equivariance-{m}", "scale(a x + b) != |a| scale(x) at scale", case)
+            # ---- Z-scores -------------------------------------------------------------------------------------------------
+            if dtype != "float32":
+                continue           # estimate_zscore works on the float32 cast; the float32 regimes cover it
+            for lm in locs:
+                c = dict(case, loc_method=lm, axis=zaxis)
+                R.tick(c)
+                try:
+                    zr = stats.estimate_zscore(inp, lm, m, zaxis)
+                    z = np.asarray(zr.data)
+                except Exception as e:  # noqa: BLE001
+                    R.fail(f"scale-exception-zscore-{m}", f"estimate_zscore raised at scale: {type(e).__name__}: {str(e)[:120]}", c)
+                    continue
+                R.evals += 1
+                if z.shape != inp.shape or not bool(np.all(np.isfinite(z))):
+                    R.fail(f"scale-finite-zscore-{m}", "Z-scores of finite data at scale are not finite (or have the wrong shape)",
+                           dict(c, got_shape=list(z.shape), n_nonfinite=int((~np.isfinite(z)).sum()) if z.shape == inp.shape else None))
+                    continue
+                dev = V64 - _r_loc(V64, lm)[:, None]
+                tiny = float(np.finfo(np.float32).eps) * np.max(np.abs(dev), axis=1)
+                sc = ref if ref.ndim == 2 else ref[:, None]
+                tl = tiny[:, None]
+                unsure = (sc > 0.5 * tl) & (sc < 2.0 * tl)          # float32 rounding may decide the guard either way
+                if unsure.any():
+                    R.hist["scale-zscore-guard-undecided"] = R.hist.get("scale-zscore-guard-undecided", 0) + int(unsure.sum())
+                sc_eff = np.where(sc <= tl, 1.0, sc)
+                zref = inp_of(dev / sc_eff)
+                zs = np.asarray(zr.scale, dtype=np.float64)
+                se = inp_of(sc_eff) if m == "doublemad" else lay(sc_eff[:, 0])
+                us = inp_of(unsure) if m == "doublemad" else lay(unsure[:, 0])
+                if zs.shape != se.shape or not bool(np.all((np.abs(zs - se) <= atol + S_RT * np.abs(se)) | us)):
+                    R.fail(f"scale-zscore-scale-{m}", "ZScoreResult.scale at scale is not the per-lane scale (keepdims layout, unit where the estimate is zero)",
+                           dict(c, got_shape=list(zs.shape), expected_shape=list(se.shape)))
+                ok = (np.abs(z - zref) <= RT_Z * (1.0 + np.abs(zref))) | inp_of(np.broadcast_to(unsure, dev.shape))
+                if not bool(np.all(ok)):
+                    w = np.argwhere(~ok)[0]
+                    R.fail(f"scale-zscore-{m}", "Z-scores at scale differ from (x - loc) / scale of each lane with the unit-scale fallback (float64 reference)",
+                           dict(c, n_bad=int((~ok).sum()), first_bad=[int(v) for v in w], got=float(z[tuple(w)]), expected=float(zref[tuple(w)])))
+                del dev, zref, ok, z, zr, sc_eff
+            del ref, exp, res
+    # ---- locations --------------------------------------------------------------------------------------------------------
+    inp = inp_of(X)
+    for lm in [l for l in locs if l != "norm"]:
+        exp = lay(_r_loc(X64, lm))
+        for axis in axes:
+            c = dict(base, loc_method=lm, axis=axis)
+            R.case(("scale-loc", mode, L, n, kind, dtype, lm, axis), regime="scale")
+            R.tick(c)
+            try:
+                r = np.asarray(stats.estimate_loc(inp, lm, axis, keepdims=True), dtype=np.float64)
+            except Exception as e:  # noqa: BLE001
+                R.fail(f"scale-exception-loc-{lm}", f"estimate_loc raised at scale: {type(e).__name__}: {str(e)[:120]}", c)
+                continue
+            R.evals += 1
+            if r.shape != exp.shape or not bool(np.all(np.abs(r - exp) <= 1e-12 * (1.0 + amax) + S_RT * np.abs(exp))):
+                R.fail(f"scale-loc-{lm}", "estimate_loc at scale differs from the float64 mean / median of each lane", dict(c, got_shape=list(r.shape)))
+    del X, X64
+
+
+def _s_callers(R, seed):
+    from sigpyproc.block import FilterbankBlock
+    from sigpyproc.header import Header
+    from sigpyproc.timeseries import TimeSeries
+
+    def refz(X64, lm, sm):
+        dev = X64 - _r_loc(X64, lm)[:, None]
+        sc = _r_scale(X64, sm)[:, None]
+        tiny = float(np.finfo(np.float32).eps) * np.max(np.abs(dev), axis=1)[:, None]
+        return dev / np.where(sc <= tiny, 1.0, sc)
+
+    def compare(key, what, got, want, case):
+        if got.shape != want.shape or not bool(np.all(np.isfinite(got))):
+            R.fail(key, what + ": wrong shape or non-finite values", dict(case, got_shape=list(got.shape)))
+            return
+        ok = np.abs(got - want) <= RT_Z * (1.0 + np.abs(want))
+        if not bool(np.all(ok)):
+            w = np.argwhere(~ok)[0]
+            R.fail(key, what + " differs from the per-lane float64 Z-scores", dict(case, n_bad=int((~ok).sum()), first_bad=[int(v) for v in w],
+                                                                               got=float(got[tuple(w)]), expected=float(want[tuple(w)])))
+    # blocks: more than 2**24 elements with more than 16384 samples per channel; channels longer than 65536 samples; many channels
+    for nch, ns, kind, combos in ((1025, 16400, "normal", (("mean", "std", 1), ("median", "mad", 1))),
+                                  (33, 70001, "outliers", (("median", "iqr", 1), ("median", "mad", 1))),
+                                  (4099, 300, "u8sat", (("mean", "std", 0), ("median", "iqr", 0)))):
+        X = scale_data(seed, (nch, ns), kind, "float32", (0, nch // 2, nch - 1))
+        X64 = X.astype(np.float64)
+        hdr = Header(filename="c15s.fil", data_type="filterbank", nchans=nch, foff=-1.0, fch1=1500.0 + nch, nbits=32, tsamp=1e-3, tstart=60000.0, nsamples=ns)
+        for lm, sm, axis in combos:
+            case = {"seed": int(seed), "lanes_x_length": [nch, ns], "kind": kind, "dtype": "float32", "const_lanes": [0, nch // 2, nch - 1], "loc": lm,
+                    "scale": sm, "axis": axis, "call": "FilterbankBlock(x, hdr).normalise(loc, scale, axis)", "data": "props/c15.py scale_data(...)"}
+            R.case(("scale-block", nch, ns, lm, sm, axis), regime="scale")
+            R.tick(case)
+            try:
+                got = np.asarray(FilterbankBlock(X.copy(), hdr).normalise(lm, sm, axis).data)
+            except Exception as e:  # noqa: BLE001
+                R.fail("scale-exception-block-normalise", f"FilterbankBlock.normalise raised at scale: {type(e).__name__}: {str(e)[:120]}", case)
+                continue
+            R.evals += 1
+            want = refz(X64, lm, sm) if axis == 1 else refz(np.ascontiguousarray(X64.T), lm, sm).T
+            compare("scale-block-normalise", "FilterbankBlock.normalise at scale", got, want, case)
+            del got, want
+        del X, X64
+    for n, kind, lm, sm in (((1 << 24) + 1, "normal", "mean", "std"), ((1 << 22) + 1, "heavyties", "median", "mad"), ((1 << 20) + 1, "u8sat", "median", "iqr")):
+        X = scale_data(seed, (1, n), kind, "float32")
+        hdr = Header(filename="c15s.tim", data_type="time series", nchans=1, foff=-1.0, fch1=1500.0, nbits=32, tsamp=1e-3, tstart=60000.0, nsamples=n)
+        case = {"seed": int(seed), "lanes_x_length": [1, n], "kind": kind, "dtype": "float32", "const_lanes": [], "loc": lm, "scale": sm,
+                "call": "TimeSeries(x[0], hdr).normalise(loc, scale)", "data": "props/c15.py scale_data(...)"}
+        R.case(("scale-tim", n, lm, sm), regime="scale")
+        R.tick(case)
+        try:
+            got = np.asarray(TimeSeries(X[0].copy(), hdr).normalise(lm, sm).data)
+        except Exception as e:  # noqa: BLE001
+            R.fail("scale-exception-timeseries-normalise", f"TimeSeries.normalise raised at scale: {type(e).__name__}: {str(e)[:120]}", case)
+            continue
+        R.evals += 1
+        compare("scale-timeseries-normalise", "TimeSeries.normalise at scale", got, refz(X.astype(np.float64), lm, sm)[0], case)
+        del X, got
+
+
+def scale(R: vlib.Run):
+    """at-scale search: one lane of 2**16-1 .. 2**24+1 elements (float32 / float64 / uint8, saturated 8-bit values, values whose squares
+    overflow float32), qn / sn with n(n-1)/2 and n*n around 2**16 .. 2**24, 2**16+1 and 2**20+1 lanes along either axis (constant lanes
+    first / middle / last), lanes longer than 65536, blocks of more than 2**24 elements, each against a float64 lane-wise reference"""
+    import time
+    warnings.filterwarnings("ignore")
+    from sigpyproc.core import stats
+    seed = R.seed + 1515
+    t0 = time.time()
+    prof = []
+
+    def go(*a, **k):
+        t = time.time()
+        _s_one(R, stats, seed, *a, **k)
+        prof.append((round(time.time() - t, 1), a[:4], k.get("dtype", "float32")))
+
+    M16, M18, M20, M22, M24 = 1 << 16, 1 << 18, 1 << 20, 1 << 22, 1 << 24
+    # ---- one lane, O(n) / O(n log n) estimators: element counts below / at / above the powers of two ------------------------
+    go(1, M16 - 1, "normal", "flat", S_FAST)
+    go(1, M16, "heavyties", "flat", S_FAST)
+    go(1, M16 + 1, "outliers", "flat", S_FAST, locs=("mean", "median", "norm"), affine=(-4.0, 100.25))
+    go(1, M18 - 1, "skewed", "flat", S_FAST, locs=("median",))
+    go(1, M18, "normal", "flat", S_FAST, locs=("mean",), dtype="float64")
+    go(1, M18 + 1, "ties", "flat", S_FAST, affine=(0.25, -77.5))
+    go(1, M20 - 1, "skewed", "flat", ["std", "mad", "diffcov", "gapper"], locs=("mean",), both=False)
+    go(1, M20, "normal", "flat", ["iqr", "doublemad", "biweight"], locs=("median",), dtype="float64", both=False)
+    go(1, M20 + 1, "outliers", "flat", S_FAST)
+    go(1, M20 + 1, "u8sat", "flat", S_FAST, dtype="uint8", both=False)
+    go(1, M20 + 1, "big", "flat", ["std", "iqr", "mad", "doublemad", "biweight", "gapper"], locs=("mean", "median"), both=False)
+    go(1, M22 - 1, "normal", "flat", ["std"], locs=("mean",), both=False)
+    go(1, M22, "ties", "flat", ["iqr", "mad"], locs=("median",), both=False)
+    go(1, M22 + 1, "heavyties", "flat", S_FAST, locs=(), both=False)
+    go(1, M24 - 1, "skewed", "flat", ["std"], locs=(), both=False)
+    go(1, M24, "normal", "flat", ["mad"], locs=(), both=False)
+    go(1, M24 + 1, "outliers", "flat", ["std", "iqr"], locs=(), both=False)
+    # ---- one lane, O(n^2) estimators: n*n and n(n-1)/2 below / at / above 2**16, 2**20, 2**22, 2**24 -------------------------
+    for n, kind in ((255, "normal"), (256, "ties"), (257, "outliers"), (362, "skewed"), (363, "heavyties"), (1023, "normal"), (1024, "skewed"),
+                    (1025, "outliers"), (1448, "normal"), (1449, "ties"), (2047, "skewed"), (2049, "normal"), (2896, "outliers"), (2897, "normal"),
+                    (4095, "heavyties"), (4097, "normal"), (5793, "outliers")):
+        go(1, n, kind, "flat", ["qn"] if n in (4095, 5793) else S_PAIR, locs=("median",), both=n < 2000, affine=(-0.5, 3.0) if n == 1449 else None)
+    # ---- many lanes (the lane loop of apply_along_axes, and the vectorised reductions), both axes ----------------------------
+    go(M16 + 1, 8, "normal", "axis1", S_VEC + ["diffcov", "sn"], locs=(), const_lanes=(0, M16 // 2), both=False)
+    go(M16 + 1, 9, "outliers", "axis0", S_VEC + ["qn", "gapper"], locs=("mean",), const_lanes=(M16 // 3,), direct=False)
+    go(4097, 8, "skewed", "axis0", ["diffcov", "sn"], locs=("median",), const_lanes=(0,), both=False)
+    go(4097, 9, "normal", "axis1", ["qn", "gapper"], locs=("median",), const_lanes=(2048,), both=False)
+    go(M16 - 1, 8, "heavyties", "axis0", S_VEC, const_lanes=(M16 - 2,))
+    go(M16, 8, "skewed", "axis1", S_VEC, locs=("median",), const_lanes=(0,), affine=(-2.0, 10.0))
+    go(M18 + 1, 8, "normal", "axis0", S_VEC, locs=(), const_lanes=(M18 // 2,), both=False)
+    go(M20 + 1, 8, "skewed", "axis1", ["std", "mad"], locs=("mean",), const_lanes=(0, M20 // 3), direct=False)
+    go(M20 + 1, 8, "normal", "axis0", ["iqr", "doublemad"], locs=(), const_lanes=(M20 // 2,), both=False)
+    # ---- lanes longer than 65536 / 16384 samples, a few hundred lanes ---------------------------------------------------------
+    go(9, M16 + 5, "outliers", "axis1", S_FAST, const_lanes=(0,))
+    go(8, M16 + 5, "normal", "axis0", S_FAST, locs=("median",), const_lanes=(7,), both=False)
+    go(150, 16385, "heavyties", "axis1", [m for m in S_FAST if m != "gapper"], locs=("mean",), const_lanes=(75,), both=False)
+    go(12, 1449, "normal", "axis0", S_PAIR, locs=("median",), const_lanes=(0, 11), both=False)
+    # ---- axis=None on 2-D input: the flattened data -----------------------------------------------------------------------------
+    go(1, 1025 * 1025, "normal", "none2d", S_FAST, locs=("mean",), shape2d=(1025, 1025), both=False)
+    go(1, 41 * 41, "outliers", "none2d", S_PAIR, locs=("median",), shape2d=(41, 41))
+    t1 = time.time()
+    _s_callers(R, seed)
+    if os.environ.get("VERIF_SCALE_PROFILE"):
+        for p in sorted(prof, reverse=True)[:60]:
+            print("scale-profile", p)
+        print("scale-profile callers", round(time.time() - t1, 1))
+    R.notes.append(f"at-scale search C15: {len(prof)} generated arrays + block / time-series callers, {time.time() - t0:.0f} s, peak RSS of the check {_s_rss_mb():.0f} MB")
